@@ -520,14 +520,14 @@ theorem prodPow_spec (hA : ArithOK) (hN : 1 < N) (bases : List Int) (hb : ∀ a 
       simp only [this]
       abel
 
-/-- An accepted signature: `v` is invertible and `v^e = Π aᵢ^{mᵢ} · b^s · c` in `(ℤ/N)ˣ`; `e` and the
-messages are in range. -/
+/-- An accepted signature: `v` is invertible, is the reduced representative of its residue (`0 < v < N`),
+and `v^e = Π aᵢ^{mᵢ} · b^s · c` in `(ℤ/N)ˣ`; `e` and the messages are in range. -/
 theorem verifyMultiattr_true_inv (hA : ArithOK) {cs : Suite} {σ : Signature} {pk : PublicKey}
     {bases msgs : List Int} (hN : 1 < pk.N) (ha : ∀ a ∈ bases, IsU pk.N a) (hb : IsU pk.N pk.b)
     (hc : IsU pk.N pk.c) {t t' : List Draw}
     (h : verifyMultiattr cs σ pk bases msgs t = .ok (true, t')) :
     msgs.length ≤ bases.length ∧ 2 ^ (cs.le - 1) < σ.e ∧ σ.e < 2 ^ cs.le ∧
-      (∀ m ∈ msgs, 0 ≤ m ∧ m < 2 ^ cs.lm) ∧ IsU pk.N σ.v ∧
+      (∀ m ∈ msgs, 0 ≤ m ∧ m < 2 ^ cs.lm) ∧ IsU pk.N σ.v ∧ (0 < σ.v ∧ σ.v < pk.N) ∧
       σ.e • rp pk.N σ.v =
         (∑ j ∈ Finset.range msgs.length, (msgs.getD j 0) • rp pk.N (bases.getD j 1))
           + σ.s • rp pk.N pk.b + rp pk.N pk.c := by
@@ -546,6 +546,9 @@ theorem verifyMultiattr_true_inv (hA : ArithOK) {cs : Suite} {σ : Signature} {p
   split at h
   · cases h
   rename_i he
+  split at h
+  · cases h
+  rename_i hvr
   obtain ⟨heq, -⟩ := ok_inj h
   rw [beq_iff_eq] at heq
   have he1 : 2 ^ (cs.le - 1) < σ.e ∧ σ.e < 2 ^ cs.le := by omega
@@ -566,7 +569,7 @@ theorem verifyMultiattr_true_inv (hA : ArithOK) {cs : Suite} {σ : Signature} {p
       have := Grp.isUnit_cv (rp pk.N P + σ.s • rp pk.N pk.b + rp pk.N pk.c)
       rw [← hcast] at this; simpa using this
     exact (isUnit_pow_iff (by omega)).mp this
-  refine ⟨by omega, he1.1, he1.2, ?_, hvu, ?_⟩
+  refine ⟨by omega, he1.1, he1.2, ?_, hvu, by omega, ?_⟩
   · intro m hm
     by_contra hcon
     apply hany
@@ -747,16 +750,33 @@ def in5 : Int := tmod (v.g4 * v.h9 * v.ce) pk.N
 def inputs : List Int := [v.in1, v.in2, v.in3, v.in4, v.in5]
 end View
 
+/-- `x` is the reduced representative of its residue modulo `N` (the check `nisp5_MultiAttr_verify_proof`
+makes on the values of the four commitments). -/
+def reducedB (N x : Int) : Bool := decide (0 ≤ x) && decide (x < N)
+
+theorem reducedB_iff {N x : Int} : reducedB N x = true ↔ 0 ≤ x ∧ x < N := by
+  simp only [reducedB, Bool.and_eq_true, decide_eq_true_eq]
+
+/-- the four commitments of the proof carry reduced representatives -/
+def commitmentsReduced (π : SignaturePoK) (N : Int) : Bool :=
+  reducedB N π.Cx.value && reducedB N π.Cv.value && reducedB N π.Cw.value && reducedB N π.Ce.value
+
+theorem commitmentsReduced_iff {π : SignaturePoK} {N : Int} : commitmentsReduced π N = true ↔
+    (0 ≤ π.Cx.value ∧ π.Cx.value < N) ∧ (0 ≤ π.Cv.value ∧ π.Cv.value < N) ∧
+      (0 ≤ π.Cw.value ∧ π.Cw.value < N) ∧ (0 ≤ π.Ce.value ∧ π.Ce.value < N) := by
+  simp only [commitmentsReduced, Bool.and_eq_true, reducedB_iff, and_assoc]
+
 /-- one ok-inversion step through a bind, replacing the hypothesis. -/
 macro "bstep " h:ident " with " a:ident t:ident ha:ident : tactic =>
   `(tactic| (obtain ⟨$a, $t, $ha, hnew__⟩ := bind_ok_inv $h; clear $h; rename' hnew__ => $h))
 
 /-- A run of the verifier that returns (does not panic) has a view, and returns whether the hash of
-the five inputs is the challenge. -/
+the five inputs is the challenge and the four commitment values are reduced modulo `N`. -/
 theorem nisp5Verify_view {π : SignaturePoK} {cpk : CommitmentPK} {pk : PublicKey}
     {bases rev : List Int} {U : List Nat} {n : Nat} {tv tv' : List Draw} {b : Bool}
     (h : nisp5Verify π cpk pk bases rev U n tv = .ok (b, tv')) :
-    ∃ v : View π cpk pk bases rev U n, b = (hashInts v.inputs == π.challenge) := by
+    ∃ v : View π cpk pk bases rev U n,
+      b = (hashInts v.inputs == π.challenge && commitmentsReduced π pk.N) := by
   unfold nisp5Verify at h
   split at h
   · cases h
@@ -807,7 +827,8 @@ theorem nisp5Verify_view {π : SignaturePoK} {cpk : CommitmentPK} {pk : PublicKe
   obtain ⟨rfl, -⟩ := ok_inj h
   exact ⟨⟨tCx, g0, a, itCx, ib, ib6, ig, ig8, cc, g7, h1, cw, cw4, ih, ih2, m4, h3, cx, g4, h9, ce,
     e_tCx, e_g0, e_a, e_itCx, e_ib, e_ib6, e_ig, e_ig8, e_cc, e_g7, e_h1, e_cw, e_cw4, e_ih, e_ih2,
-    e_m4, e_h3, e_cx, e_g4, e_h9, e_ce⟩, rfl⟩
+    e_m4, e_h3, e_cx, e_g4, e_h9, e_ce⟩, by
+      simp only [commitmentsReduced, reducedB, Bool.and_assoc]; rfl⟩
 
 /-! ### tools for the soundness-type statements -/
 
@@ -1024,5 +1045,19 @@ theorem mixLoop_append (N : Int) (bases s5 rev e1 e2 : List Int) (U : List Nat) 
       rw [idx_of_getElem? h1', idx_of_getElem? h2]
       simp only [pure_bind, pw_eq_pure_of_ok h3]
       exact ihk _ _ _ _ (tapeFree_eq_pure (mixLoop_tapeFree ..) h)
+
+/-- translating by a non-zero multiple of `N` leaves the interval `[0, N)`: at most one representative of a
+residue class is reduced. -/
+theorem shift_not_reduced {x N k : Int} (hk : k ≠ 0) (h0 : 0 ≤ x) (hx : x < N) :
+    x + k * N < 0 ∨ N ≤ x + k * N := by
+  have hN : 0 < N := by omega
+  rcases Int.lt_or_lt_of_ne hk with hneg | hpos
+  · left
+    have : k * N ≤ -1 * N := Int.mul_le_mul_of_nonneg_right (by omega) (by omega)
+    omega
+  · right
+    have : 1 * N ≤ k * N := Int.mul_le_mul_of_nonneg_right (by omega) (by omega)
+    omega
+
 
 end Zk.ClSpok
